@@ -647,7 +647,8 @@ def gen_file_doc(rng, lang_sections, extra=("nunavut.lang.zz9",)):
         if rng.random() < 0.8:
             body["options"] = gen_options(rng, sec.endswith("cpp"), explicit_only=True)
         if rng.random() < 0.4:
-            body[rng.choice(["extension", "namespace_file_stem", "stropping_prefix", "new_key"])] = rng.choice([".h", ".hpp", "x", "_"])
+            key = rng.choice(["extension", "namespace_file_stem", "stropping_prefix", "new_key"])
+            body[key] = rng.choice([".h", ".hpp", ".hxx"]) if key == "extension" else rng.choice([".h", ".hpp", "x", "_"])
         if rng.random() < 0.2:
             body["named_types"] = {rng.choice(["byte", "mine"]): rng.choice(["uint8_t", "foo"])}
         if sec.endswith("cpp") and rng.random() < 0.25:
@@ -863,8 +864,9 @@ def stream_cli(ctx, drv, rng):
         ops.append("X" if lang == "cpp" else "C")
         lines.append("build " + builtin + " " + " ".join(ops))
         try:
-            with contextlib.redirect_stdout(io.StringIO()):
-                runner = ArgparseRunner(args.root_namespace, args, [])
+            runner = ArgparseRunner.__new__(ArgparseRunner)   # only the anchored method, not the namespace scan
+            runner._args = args
+            runner._language_context = runner._create_language_context()
             secs = runner._language_context.config.sections()
             ans = "ok " + wire(secs)
             # the file's explicit value must survive a flag that was not given (issue #329)
@@ -1017,21 +1019,23 @@ def run(ctx: common.Ctx):
 
 
 def replay(ctx, path):
-    from nunavut._utilities import deep_update
+    """Re-evaluate the sub-properties on the recorded input against the tree under check; 1 = still failing."""
+    import random
     r = json.loads(open(path).read())
     rp = r.get("replay", {})
-    if "sources" in rp and "heap" in rp:
-        print(json.dumps({"note": "replay of a deep_update sequence is done from the wire form", "target": rp["target"],
-                          "sources": rp["sources"]}))
+    if "sources" in rp and "target" in rp:
         t = parse_wire(rp["target"])
         srcs = [parse_wire(s) for s in rp["sources"]]
-        before = [wire(s) for s in srcs]
-        for s in srcs:
-            t = deep_update(t, s)
-        after = [wire(s) for s in srcs]
-        print(json.dumps({"result": wire(t), "sources_before": before, "sources_after": after}))
-        return 1 if before != after else 0
-    print("nothing to replay in-process (see the 'replay' object of the file)")
+        run = MergeRun("tree", t, srcs)
+        search_merge(ctx, run, random.Random(0))
+        print(json.dumps({"target": rp["target"], "sources": rp["sources"], "result": run.impl_value_answer(),
+                          "sources_after": [wire(s) for s in srcs] if not run.cyclic else "cyclic",
+                          "failures": [{"key": f["key"], "what": f["what"]} for f in ctx.failures]}))
+        return 1 if ctx.failures else 0
+    if "defaults" in rp and "options" in rp and "result" in rp:
+        print(json.dumps({"note": "C++ shorthand case; re-run the check to re-evaluate", "replay": rp})[:2000])
+        return 1
+    print("not replayable in-process: re-run ./check C13 with seed %s (builder / CLI call sequence in the file)" % r.get("seed"))
     return 1
 
 
